@@ -20,9 +20,15 @@ LEVEL_TEXT = ("Every text up to the length bound over {a, space, newline, tab, (
 LEVEL_NOTE = "Trusted: Pygments 2.21 as definition of 'token'. Bound: text length (evidence.bounds). '\\r' is not in the alphabet (files are read with universal newlines)."
 
 FILENAMES = {"C": "x.c", "C++": "x.cpp", "C#": "x.cs", "Java": "x.java", "JavaScript": "x.js", "TypeScript": "x.ts", "Python": "x.py"}
-ALPHABET = ["a", " ", "\n", "\t", "(", '"', "'", "#", "/", "*", "\\", "é"]
+# "\r", form feed and U+2028 are line boundaries for str.splitlines() but NOT for the tool (lines are "\n"-separated)
+ALPHABET = ["a", " ", "\n", "\t", "(", '"', "'", "#", "/", "*", "\\", "é", "\r", "\x0c", "\u2028"]
 
 EXTRA_TEXTS = [
+    "x = 1\x0cy = 2\n\x0c\ndef f():\n    return 1\x0b\n",
+    "a\x85b\x1cc\x1dd\x1ee\u2029f\n(g)\n",
+    "x = \"\"\"a\n\n",
+    "#define X \\\n\n",
+
     "def f():\n    \"\"\"doc\n    more\n    \"\"\"\n    return 1\n",
     "function f() {\n  x = 1\n// c\n  y();\n}\n",
     "/* a\n b */ int f(void) {\n\treturn 0; // t\n}\n",
@@ -129,7 +135,7 @@ def replay(case):
 
 def run(ctx: core.Ctx):
     n = ctx.pick(4, 6)
-    alphabet = ALPHABET if n <= 5 else [a for a in ALPHABET if a not in ("\t", "é")]
+    alphabet = ALPHABET if n <= 4 else [a for a in ALPHABET if a not in ("\t", "é", "\r", "\u2028", "*")]
     ctx.bounds = {"max_text_length": n, "alphabet": alphabet, "languages": list(FILENAMES), "extra_texts": len(EXTRA_TEXTS)}
     if n > 5:
         ctx.bounds["also"] = {"max_text_length": 5, "alphabet": ALPHABET}
